@@ -8,18 +8,22 @@ Theorem C12_check_sound : forall i o, check_C12 i o = true -> C12_holds i o.
 Proof. exact check_C12_sound. Qed.
 Print Assumptions C12_check_sound.
 
-(* MAIN (abstract literals).  lit = SQLAlchemy's literal renderer, parse_lit = SQLite's reading of a literal: any functions.
+(* MAIN (abstract literals).  lit = SQLAlchemy's literal renderer, parse_lit = SQLite's reading of a literal, untext =
+   what SQLAlchemy's text() does to the text of a literal inside an op.execute string (DefaultImpl._exec wraps a plain
+   string in text() in both modes): any functions.  Bulk rows may omit columns (column default / NULL) or give None;
+   CreateTable / AddColumn columns may carry a server default, whose literal is part of the DDL.
    For every starting database d at `start` (version rows = start; no version table at base), every plan `steps`
    (each step = migration body over the op alphabet + the version-table statements HeadMaintainer issues for it) such that
    the version heads are non-empty between steps and a run from base is not empty: if every literal of the plan
    round-trips (parse_lit (lit v) = v) and contains no tab, then executing the offline statement stream statement by
    statement on d has the same observable (tables, columns, rows, indexes, version rows) as the online run on d;
    if one side aborts so does the other. *)
-Theorem C12_same_effect : forall (lit : value -> text) (parse_lit : text -> value) d start steps,
+Theorem C12_same_effect : forall (lit : value -> text) (parse_lit : text -> value) (untext : text -> text) d start steps,
   db_at d start -> mid_nonempty start steps = true -> (start = [] -> steps <> []) ->
   (forall v, In v (steps_values steps) -> parse_lit (lit v) = v) ->
-  (forall v, In v (steps_values steps) -> no_tab (lit v) = true)        (* no_tab_in_literals *) ->
-  option_map observable (offline_effect lit parse_lit d start steps) = option_map observable (run_online lit parse_lit d steps).
+  (forall v, In v (steps_values steps) -> no_tab (lit v) = true)        (* no_tab_in_literals: rendered literals *) ->
+  (forall w, In w (steps_texts steps) -> no_tab (untext w) = true)      (* no_tab_in_literals: op.execute literals *) ->
+  option_map observable (offline_effect lit parse_lit untext d start steps) = option_map observable (run_online lit parse_lit untext d steps).
 Proof. exact same_effect. Qed.
 Print Assumptions C12_same_effect.
 
@@ -61,9 +65,9 @@ Print Assumptions C12_exec_post_literal.
 
 (* the invariant of the induction, for every plan and independent of the literals:
    offline HeadMaintainer.heads = online HeadMaintainer.heads = the rows of the version table *)
-Theorem C12_heads_invariant : forall (lit : value -> text) (parse_lit : text -> value) steps d h s hf d2 h2,
+Theorem C12_heads_invariant : forall (lit : value -> text) (parse_lit : text -> value) (untext : text -> text) steps d h s hf d2 h2,
   snd d = Some h -> NoDup h ->
-  off_steps lit h steps = Some (s, hf) -> on_steps lit parse_lit d h steps = Some (d2, h2) ->
+  off_steps lit untext h steps = Some (s, hf) -> on_steps lit parse_lit untext d h steps = Some (d2, h2) ->
   h2 = hf /\ snd d2 = Some hf /\ NoDup hf.
 Proof. exact heads_invariant. Qed.
 Print Assumptions C12_heads_invariant.
